@@ -416,7 +416,10 @@ def REACH():
 # ----------------------------------------------------------------------------- workload
 def twist(rng):
     from .c03_explog import rot_mag
-    return np.r_[gen.transl(rng, hi=1e3), gen.unit_axis(rng) * rot_mag(rng)]
+    # (one twist in five turns more than once: "for all twists S" -- the translation of a pitched screw is not periodic in the angle)
+    if rng.random() < 0.12:
+        return np.r_[gen.transl(rng, hi=1e3), gen.unit_axis(rng) * float(rng.uniform(2 * math.pi, 6 * math.pi))]
+    return np.r_[gen.transl(rng, hi=1e3), gen.unit_axis(rng) * rot_mag(rng, many=bool(rng.random() < 0.2))]
 
 
 def run(ctx):
